@@ -89,7 +89,7 @@ func runC14SSHChild(a vh.Args, o *vh.Oracle, r *vh.Result) error {
 
 // parent: results per op ("HANG" for the op that never returned and everything after it),
 // whether Close returned
-func c14RunSSHChild(a vh.Args, dir string, n int, ops []c14SSHOp, watchdog time.Duration) ([]string, bool, error) {
+func c14RunSSHChild(a vh.Args, dir string, n int, ops []c14SSHOp, watchdog time.Duration, remoteExtra string) ([]string, bool, error) {
 	bin := os.Getenv("VH_DESYNC")
 	if bin == "" {
 		return nil, false, nil
@@ -100,7 +100,7 @@ func c14RunSSHChild(a vh.Args, dir string, n int, ops []c14SSHOp, watchdog time.
 			return nil, false, err
 		}
 	}
-	job, _ := json.Marshal(c14SSHJob{Dir: dir, N: n, SSH: fake, Remote: bin + " --digest sha256", Ops: ops})
+	job, _ := json.Marshal(c14SSHJob{Dir: dir, N: n, SSH: fake, Remote: bin + " --digest sha256" + remoteExtra, Ops: ops})
 	cmd := exec.Command(os.Args[0], "C14sshchild", "-oracle", "/nonexistent")
 	cmd.Env = append(os.Environ(), "VH_C14_CHILD="+string(job))
 	cmd.SysProcAttr = &syscall.SysProcAttr{Setpgid: true}
@@ -176,7 +176,7 @@ func c14SSHPool(a vh.Args, o *vh.Oracle, r *vh.Result, rng *vh.Rand) error {
 			}
 			ops = append(ops, c14SSHOp{"get", idOf("p1")}, c14SSHOp{"has", idOf("p0")})
 			names = append(names, "get:p1", "has:p0")
-			res, closed, err := c14RunSSHChild(a, s.dir, n, ops, 5*time.Second)
+			res, closed, err := c14RunSSHChild(a, s.dir, n, ops, 5*time.Second, "")
 			if err != nil {
 				return err
 			}
